@@ -172,7 +172,10 @@ NOTES["C14"] = dict(
           "documented strict threshold test against theta times the row's extreme off-diagonal of sign opposite to the diagonal (sentinel-free "
           "statements under |entries| < RAND_MAX; variable filter; symmetric: row test or column's row test). The model is array-equal to the "
           "real sequential routine (dyadic data, exact comparisons); the distributed routine's gathered result equals the sequential model on "
-          "every generated layout, and the membership test is re-evaluated independently on every output."),
+          "every generated layout, and the membership test is re-evaluated independently on every output. Partition independence of the "
+          "classical measure is a theorem (Props/C14Par.lean): the strength row is natural in the column numbering (classicalRow_renumber: local "
+          "on/off-process numbering vs global), and the per-rank results over any contiguous row partition, empty ranks included, concatenate "
+          "to the global strength matrix (classical_blocks_eq_global, classical_partition_indep); likewise the symmetric measure with the row data computed by the owners (infos_blocks, symmetric_blocks_eq_global, symmetric_partition_indep)."),
     note="Trusted: Lean kernel + standard axioms; dyadic data make comparisons exact; |entries| < RAND_MAX.",
     technique="Lean 4 proof on an executable model; exact array correspondence (seq) and gathered-matrix correspondence (par)",
 )
